@@ -4,6 +4,7 @@ import (
 	"encoding/json"
 	"fmt"
 	"os"
+	"runtime"
 	"sort"
 	"strconv"
 	"sync"
@@ -134,6 +135,11 @@ func langWorker(args []string) {
 			res.Inputs++
 			before, ntBefore := res.Parsed, res.Nontrivial
 			v := evalLang(prop, in, &res)
+			// the lexer goroutine of this input may still be runnable (the parser stopped reading after an
+			// error of its own): let it run to its next blocking point NOW, so that a crash in it is
+			// attributed to this input and not to a later one (workers run with GOMAXPROCS=1)
+			runtime.Gosched()
+			runtime.Gosched()
 			if res.Nontrivial > ntBefore {
 				// distinct count, conservative: sigma strings are distinct by construction;
 				// structure renderings longer than any sigma string, deduplicated per structure
@@ -276,7 +282,11 @@ func langCheck(prop, tier string) int {
 				fmt.Fprintf(os.Stderr, "harness warning: worker failure on %s not reproducible\n", strconv.Quote(input))
 			}
 		}
-		ev.Fatal("shard %v keeps crashing", sh)
+		// the worker keeps dying in this shard: every crash so far has been reported; give the rest up
+		mu.Lock()
+		exhaustive = false
+		total.Outcomes["shard-abandoned-after-200-crashes"]++
+		mu.Unlock()
 	})
 	if prop == "C08" {
 		if f := os.Getenv("VERIF_C08_SCHED"); f != "" {
